@@ -497,8 +497,9 @@ def r4(ctx: Ctx) -> None:
     if len(loops) == 1:
         v = loops[0][1]
         body = loops[0][3]
-        blk = ("c", ("a", ("a", ("self",), "_blockages"), "append"), (v,), ())
-        spc = ("c", ("a", ("a", ("self",), "_specialized_regions"), "append"), (v,), ())
+        from .common import self_field
+        blk = ("c", ("a", self_field(init, "_blockages"), "append"), (v,), ())
+        spc = ("c", ("a", self_field(init, "_specialized_regions"), "append"), (v,), ())
         cond = mk_eq(("a", v, "region"), k_str(kw_value(ctx, "KW_BLOCKAGE")))
         ok = body in ((("expr", ("ite", cond, blk, spc)),), (("if", cond, (("expr", blk),), (("expr", spc),)),))
     fx = [st for st in ci if st[0] == "set" and st[1] == ("a", ("self",), "_fixed")]
